@@ -237,6 +237,7 @@ MIRI_PLAN = {
 }
 MIRI_FLAGS = "-Zmiri-disable-isolation -Zmiri-permissive-provenance -Zmiri-ignore-leaks"
 
+QUICK_MULT = 3
 EXHAUSTIVE_FAMILIES = {"iterx", "forgetx", "retainx", "capx", "panicx", "exh", "slide", "tomb", "cluster"}
 SHARDED = {"iterx", "forgetx", "retainx", "panicx", "exh", "slide", "tomb", "cluster"}
 
@@ -249,10 +250,11 @@ def plan(prop, tier):
             if n == "exh":
                 out.append((n, s, ["--depth", "3"]))
             else:
-                out.append((n, s * 12, e))
+                out.append((n, s * 36, e))
         out += THOROUGH_EXTRA.get(prop, [])
         return out
-    return fams
+    # quick tier: three times the listed sequence counts (a whole quick check stays well under a minute)
+    return [(n, s * QUICK_MULT, e) for (n, s, e) in fams]
 
 
 # ----------------------------------------------------------------------------------------------
